@@ -422,6 +422,40 @@ static void wrappers(uint64_t N, unsigned reps) {
         gb_free(&ga);
         gb_free(&gb);
         cnt("wrapper_calls", 3);
+        // big rotation / automorphism in place for every pair of limb counts 0..3 (one-limb and empty vectors included), against
+        // the out-of-place call on a copy
+        for (uint64_t rs2 = 0; rs2 <= 3; rs2++)
+          for (uint64_t as2 = 0; as2 <= 3; as2++)
+            for (int variant = 0; variant < 2; variant++) {
+              const uint64_t lim = (rs2 > as2 ? rs2 : as2) ? (rs2 > as2 ? rs2 : as2) : 1;
+              gbuf_t gx, gy, gz;
+              int64_t* x = gb_alloc(&gx, bytes_of_vec_znx_big(mod, lim), 8, 8, 4096);
+              int64_t* y = gb_alloc(&gy, bytes_of_vec_znx_big(mod, lim), 8, 16, 4096);
+              int64_t* z2 = gb_alloc(&gz, bytes_of_vec_znx_big(mod, rs2 ? rs2 : 1), 8, 24, 4096);
+              for (uint64_t i = 0; i < lim * N; i++) x[i] = y[i] = (int64_t)(i + 1) * (variant ? -3 : 5);
+              memset(z2, 0x44, (rs2 ? rs2 : 1) * N * 8);
+              const int64_t pp = variant ? po : p;
+              if (variant) {
+                vec_znx_big_automorphism(mod, pp, (VEC_ZNX_BIG*)z2, rs2, (VEC_ZNX_BIG*)y, as2);
+                vec_znx_big_automorphism(mod, pp, (VEC_ZNX_BIG*)x, rs2, (VEC_ZNX_BIG*)x, as2);
+              } else {
+                vec_znx_big_rotate(mod, pp, (VEC_ZNX_BIG*)z2, rs2, (VEC_ZNX_BIG*)y, as2);
+                vec_znx_big_rotate(mod, pp, (VEC_ZNX_BIG*)x, rs2, (VEC_ZNX_BIG*)x, as2);
+              }
+              if (rs2 && memcmp(x, z2, rs2 * N * 8)) viol("oracle", "%s in place (res_size=%" PRIu64 ", a_size=%" PRIu64 ", p=%" PRId64 ") != out of place", variant ? "vec_znx_big_automorphism" : "vec_znx_big_rotate", rs2, as2, pp);
+              for (uint64_t l = 0; l < rs2; l++) {
+                if (l < as2) {
+                  if (variant) oracle_auto(N, pp, y + l * N, exp); else oracle_rotate(N, pp, y + l * N, exp);
+                } else
+                  memset(exp, 0, N * 8);
+                if (cmp_i(z2 + l * N, exp, N, &at)) viol("oracle", "%s (res_size=%" PRIu64 ", a_size=%" PRIu64 "): limb %" PRIu64 " is not the zero-extended map", variant ? "vec_znx_big_automorphism" : "vec_znx_big_rotate", rs2, as2, l);
+              }
+              long wh2;
+              if (gb_check(&gx, &wh2) || gb_check(&gy, &wh2) || gb_check(&gz, &wh2)) viol("canary", "big rotate/automorphism (sizes %" PRIu64 ",%" PRIu64 ") wrote outside its vectors", rs2, as2);
+              gb_free(&gx); gb_free(&gy); gb_free(&gz);
+              cnt("wrapper_calls", 2);
+              cnt("inplace_unequal_size_calls", 1);
+            }
       }
       sample("p=%" PRId64 " q=%" PRId64 " size=%" PRIu64 " sl=%" PRIu64, p, q, size, sl);
       free(exp);
